@@ -50,6 +50,23 @@ func buildPool() []*parrot {
 			ps = append(ps, &p)
 		}
 	}
+	// typed extensions given as a GenericExtension of the same id and body (2 extended_master_secret, 3 psk modes), and a
+	// fingerprinted ClientHello with an extension id the library has no type for
+	for _, g := range []struct {
+		n     string
+		id    tls.ClientHelloID
+		kinds []int
+	}{{"Custom(Chrome_100)~ems", tls.HelloChrome_100, []int{2}}, {"Custom(Firefox_120)~ems", tls.HelloFirefox_120, []int{2}},
+		{"Custom(Chrome_58)~ems", tls.HelloChrome_58, []int{2}},
+		{"Custom(Chrome_100_PSK)~ems~modes", tls.HelloChrome_100_PSK, []int{2, 3}}, {"Custom(Chrome_100)~modes", tls.HelloChrome_100, []int{3}},
+		{"Custom(Chrome_100)~tkt", tls.HelloChrome_100, []int{0}}, {"Custom(Chrome_100_PSK)~tkt", tls.HelloChrome_100_PSK, []int{0}}} {
+		p := customGeneric(g.n, g.id, g.kinds...)
+		ps = append(ps, &p)
+	}
+	{
+		p := customFingerprintedUnknown("Fingerprinted(Chrome_100+unknown)~", tls.HelloChrome_100)
+		ps = append(ps, &p)
+	}
 	for _, b := range []struct {
 		n  string
 		id tls.ClientHelloID
@@ -81,7 +98,7 @@ func u16list(xs []uint16) string {
 	return vh.List(it)
 }
 
-var extName = []string{"XTicket", "XPsk", "XEms", "XPskModes", "XOther"}
+var extName = []string{"XTicket", "XPsk", "XEms", "XPskModes", "XOther", "XTicketWire"}
 
 func (p *parrot) versList() []uint16 {
 	max := uint16(tls.VersionTLS12)
@@ -383,9 +400,9 @@ func run(c *vh.Ctx) {
 		}
 	}
 	for _, p := range customs {
-		interesting := strings.Contains(p.Name, "-ems") || strings.Contains(p.Name, "-tkt") || strings.Contains(p.Name, "PSK")
+		interesting := strings.Contains(p.Name, "-ems") || strings.Contains(p.Name, "-tkt") || strings.Contains(p.Name, "PSK") || strings.Contains(p.Name, "~")
 		for _, k := range []int{srv12, srv13} {
-			if k == srv13 && (!p.Max13 || (c.Tier == "quick" && !strings.Contains(p.Name, "PSK"))) {
+			if k == srv13 && (!p.Max13 || (c.Tier == "quick" && !strings.Contains(p.Name, "PSK") && !strings.Contains(p.Name, "~"))) {
 				continue
 			}
 			hists = append(hists, []connPlan{mk(p, 0, k, hour), mk(p, 0, k, hour), mk(p, 0, k, hour)})
